@@ -6,6 +6,7 @@ import vlib
 
 DISPATCH = {
     "C05": "check_session", "C18": "check_session",
+    "C06": "check_framing", "C07": "check_framing",
     "C08": "check_wire", "C09": "check_wire", "C12": "check_wire",
 }
 
